@@ -12,12 +12,14 @@ Local Open Scope string_scope.
 '''
 
 
-def run_impl(c, caps, cmin, reuse, strip):
-    """caps: int or list. Returns simops_data tuple or None when the implementation raises."""
+def run_impl(c, caps, cmin, reuse, strip, caps_dtype=None):
+    """caps: int or list. Returns simops_data tuple or None when the implementation raises.
+    caps_dtype: hand the capacity vector over as a numpy array of that (possibly narrow) integer dtype."""
     from kyupy import sim
     try:
         with contextlib.redirect_stdout(io.StringIO()):
-            so = sim.SimOps(c, c_caps=caps, c_caps_min=cmin, c_reuse=reuse, strip_forks=strip)
+            so = sim.SimOps(c, c_caps=(np.array(caps, dtype=caps_dtype) if caps_dtype and not isinstance(caps, int) else caps),
+                            c_caps_min=cmin, c_reuse=reuse, strip_forks=strip)
         if so.ops.ndim != 2:
             return so, None
         return so, (so.ops[:, :6].tolist(), so.level_starts.tolist(), so.c_locs.tolist(), so.c_caps.tolist(), int(so.c_len))
